@@ -270,4 +270,24 @@ def main(argv=None):
 
 
 if __name__ == '__main__':
-    sys.exit(main())
+    _code = main()
+    # leave at once with the verdict: the worker pools were shut down without waiting, their management threads must not get the chance to
+    # turn interpreter shutdown into noise (or into another exit status)
+    sys.stdout.flush()
+    sys.stderr.flush()
+    # the (idle) pool workers are children of this process: end them, nothing may linger after the verdict
+    try:
+        import signal
+        me = os.getpid()
+        for d_ in os.listdir('/proc'):
+            if d_.isdigit():
+                try:
+                    with open(f'/proc/{d_}/stat') as fh_:
+                        ppid_ = int(fh_.read().rsplit(')', 1)[1].split()[1])
+                    if ppid_ == me:
+                        os.kill(int(d_), signal.SIGKILL)
+                except (OSError, ValueError, IndexError):
+                    pass
+    except Exception:
+        pass
+    os._exit(_code if isinstance(_code, int) else 0)
